@@ -20,8 +20,8 @@ CLAIMED.update({
         technique="contract-based deductive verification (Verus, functions extracted mechanically from /repo)",
         design="DESIGN.md section 5, C13"),
     "C17": dict(
-        text="Deductive proof (Verus) on asm(): for every mnemonic and every variable memory class the address offset equals the port the access must use (superchip read port +0x80, 3E write port +0x400, 3E+ write port +0x200, ordinary memory +0), in the Absolute, X-indexed and Y-indexed arms; read-modify-write on split-port memory is a recorded known finding.",
-        note="Partial: 'still computes what the source says' is C01. Callers' avoidance of INC/DEC (generate_plusplus) not yet under contract.",
+        text="Deductive proof (Verus) on asm(): for every mnemonic and every variable memory class the address offset equals the port the access must use (superchip read port +0x80, 3E write port +0x400, 3E+ write port +0x200, ordinary memory +0), in the Absolute, X-indexed and Y-indexed arms; read-modify-write instructions on split-port memory are rejected with an error by asm(); under cfg atari2600 generate_plusplus never emits INC/DEC on a superchip / on-chip-RAM variable (Kani, both operand forms, all variable types).",
+        note="Partial: 'still computes what the source says' is C01; the load-add-store path taken instead of INC/DEC is only recorded, not interpreted.",
         technique="contract-based deductive verification (Verus assertions spliced after the offset computation of the real asm())",
         design="DESIGN.md section 5, C17"),
 })
@@ -44,8 +44,8 @@ CLAIMED.update({
 
 CLAIMED.update({
     "C10": dict(
-        text="Kani (CBMC, bit-precise, full i32 domain, loop-free: complete) on the real bodies of the constant calculator's operator closures: every binary/unary operator returns the C value wherever C defines it in 32-bit int and an error (no panic, no wrapped value) elsewhere, failed operands propagate, division by zero is located at the operator; the three operator tables handed to the Pratt parser are run verbatim against a recording shim and compared with the ISO C precedence/associativity table. Counterexamples are lifted to constant initialisers and replayed on the real compiler.",
-        note="pest PrattParser semantics assumed (A-pratt); oracle = C semantics written as i64 arithmetic / C99 division definition in the harness; sizeof, integer-literal parsing and the generator's folding arms are not under contract yet; ternary sentinel collision is a recorded known finding.",
+        text="Kani (CBMC, bit-precise, full i32 domain, loop-free: complete) on the real bodies of the constant calculator's operator closures: every binary/unary operator returns the C value wherever C defines it in 32-bit int and an error (no panic, no wrapped value) elsewhere, failed operands propagate, division by zero is located at the operator; the three operator tables handed to the Pratt parser are run verbatim against a recording shim and compared with the ISO C precedence/associativity table; the generator's own folding of immediates (generate_arithm, generate_shift, neg/not/bnot arms) returns the same C values and an error (never a panic) for the undefined cases. Counterexamples are lifted to constant initialisers and replayed on the real compiler.",
+        note="pest PrattParser semantics assumed (A-pratt); oracle = C semantics written as i64 arithmetic / C99 division definition in the harness; sizeof and integer-literal parsing are not under contract yet; ternary sentinel collision is a recorded known finding.",
         technique="contract-style full-domain model checking of extracted loop-free code (Kani harness per operator obligation) + verbatim table extraction",
         design="DESIGN.md section 5, C10"),
 })
@@ -92,13 +92,13 @@ CLAIMED.update({
 
 CLAIMED.update({
     "C01": dict(
-        text="Partial, per-function: Kani (full 8-bit domains, loop-free) runs the real generate_branch_instruction / generate_branch_instruction_alt against a recording shim and interprets the emitted branches on the flags a 6502 CMP / load produces: the branch reaches the label exactly when `a op b` holds, for every operator, signedness, a, b (signed orderings split into the overflow and non-overflow halves; the seven halves that are false today are recorded known findings with witness programs); the negate/switch operator tables of generate_condition_ex are semantically exact for all 16-bit operands; the operator tables handed to the Pratt parser follow C precedence; Verus shows csleep/load invalidate the generator's N/Z belief and label() resets it.",
+        text="Partial, per-function: Kani (full 8-bit domains, loop-free) runs the real generate_branch_instruction / generate_branch_instruction_alt against a recording shim and interprets the emitted branches on the flags a 6502 CMP / load produces: the branch reaches the label exactly when `a op b` holds, for every operator, signedness, a, b (signed orderings split into the overflow and non-overflow halves; the seven halves that are false today are recorded known findings with witness programs); the negate/switch operator tables of generate_condition_ex are semantically exact for all 16-bit operands; the operator tables handed to the Pratt parser follow C precedence; the whole of generate_plusplus is run against a recording shim and its emitted sequences are interpreted on every 16-bit / 8-bit value and register state (value +-1, registers and a live accumulator preserved, and the generator's flags belief afterwards is true); operand canonicalisation of generate_arithm never exchanges the operands of - and /; Verus shows csleep/load invalidate the generator's N/Z belief and label() resets it.",
         note="NOT decided: composition of these pieces into whole-program semantic preservation (expression evaluation order, register/temporary liveness, deferred ++, flags belief elsewhere, loops/switch/calls, scoping) and the 'must be rejected with an error' clause. That needs an invariant over the entire generator and a semantics of the pest AST: out of reach for per-function contracts here.",
         technique="contract-style full-domain model checking of extracted loop-free lowering code (Kani) + Verus contracts on statement generators",
         design="DESIGN.md section 5, C01"),
     "C15": dict(
-        text="Partial: the table-level mechanisms behind two of the listed rewrites are proved on the real code: `a < b` versus `b > a` and `if (c) A else B` versus `if (!c) B else A` rest on the negate/switch operator tables of generate_condition_ex, which Kani shows semantically exact for all operands (mirror and complement), and on the branch emitters being exact for every operator (shared with C01).",
-        note="NOT decided: commuting + & | ^ (generate_arithm canonicalisation), op= forms, ++x vs x += 1, for vs while, switch vs if-chain, register vs constant index, call vs inlined body: these are agreements between different lowering paths, i.e. whole-program semantics.",
+        text="Partial: the table-level mechanisms behind two of the listed rewrites are proved on the real code: `a < b` versus `b > a` and `if (c) A else B` versus `if (!c) B else A` rest on the negate/switch operator tables of generate_condition_ex, which Kani shows semantically exact for all operands (mirror and complement), and on the branch emitters being exact for every operator (shared with C01); commuting + & | ^ rests on generate_arithm's operand canonicalisation, proved to exchange operands only for + & | ^ * and never for - or / (plain or compound form); ++/-- on X and Y are exact.",
+        note="NOT decided: op= forms beyond operand order, ++x vs x += 1, for vs while, switch vs if-chain, register vs constant index, call vs inlined body: these are agreements between different lowering paths, i.e. whole-program semantics.",
         technique="contract-style full-domain model checking of extracted loop-free code (Kani)",
         design="DESIGN.md section 5, C15"),
 })
